@@ -277,6 +277,8 @@ enum Round {
 // So for u128, BIN = 128, DEC ≤ 54
 trait DecToBin: Sized {
     type Double;
+    /// Number of decimal digits handled by the short path.
+    const DEC: u32;
     fn dec_to_bin(val: Self::Double, nbits: u32, round: Round) -> Option<Self>;
     fn parse_is_short(bytes: &[u8]) -> (Self::Double, bool);
 }
@@ -285,6 +287,7 @@ macro_rules! impl_dec_to_bin {
     ($Single:ident, $Double:ident, $dec:expr, $bin:expr) => {
         impl DecToBin for $Single {
             type Double = $Double;
+            const DEC: u32 = $dec;
             fn dec_to_bin(val: $Double, nbits: u32, round: Round) -> Option<$Single> {
                 debug_assert!(val < $Double::pow(10, $dec));
                 debug_assert!(nbits <= $bin);
@@ -336,6 +339,7 @@ impl_dec_to_bin! { u64, u128, 27, 64 }
 
 impl DecToBin for u128 {
     type Double = (u128, u128);
+    const DEC: u32 = 54;
     fn dec_to_bin((hi, lo): (u128, u128), nbits: u32, round: Round) -> Option<u128> {
         debug_assert!(hi < 10u128.pow(27));
         debug_assert!(lo < 10u128.pow(27));
@@ -422,6 +426,9 @@ where
     I: Mul10 + Shl<u32, Output = I> + Shr<u32, Output = I> + Add<Output = I> + Mul<Output = I>,
 {
     let (val, is_short) = I::parse_is_short(bytes);
+    // dec_to_bin shifts val right by DEC - 1 - nbits bits when nbits < DEC - 1; rounding to
+    // nearest on the truncated value is wrong, so then use floor and compare the digits below
+    let is_short = is_short && nbits + 1 >= I::DEC;
     let one = I::from(1);
     let dump_bits = I::NBITS - nbits;
     // if is_short, dec_to_bin can round and give correct answer immediately
